@@ -69,6 +69,11 @@ func vh_C13_Timeout() {
 	if mode == 1 {
 		latency, timeout = 200*time.Millisecond, 60*time.Millisecond
 	}
+	if mode != 0 {
+		// a timeout that has already expired when the call is made (zero, or negative as time.Until(deadline) gives
+		// after the deadline) is still a timeout
+		timeout = []time.Duration{timeout, 0, -time.Second}[vfChoose("timeout-shape", 3)]
+	}
 	actor := c13Actor(latency, mode == 2, &served)
 	slow := vfInt("slow")
 	vfAssume(slow < 0) // negative messages are the slow / unanswered ones
